@@ -658,7 +658,14 @@ orc_compiler_compile_program (OrcCompiler *compiler, OrcProgram *program, OrcTar
    /* Can't set code as executable, force emulation */
    program->orccode->exec = (void *)orc_executor_emulate;
 #endif
-  program->code_exec = program->orccode->exec;
+  if (compiler->target->executable) {
+    program->code_exec = program->orccode->exec;
+  } else {
+    /* code for a machine this one is not (another architecture, or features
+     * this CPU lacks): it can be inspected, not run.  Keep the fallback chosen
+     * above, also for a code-only executor */
+    program->orccode->exec = program->code_exec;
+  }
 
   program->asm_code = compiler->asm_code;
 
